@@ -137,6 +137,7 @@ type evalCfg struct {
 	limit    int
 	args     []ugo.Object
 	disabled []string // builtins disabled in the session's (and the batch run's) root symbol table
+	nilGlob  bool     // the session is created with NewEval(opts, nil): Eval supplies the globals map
 }
 
 func (c evalCfg) String() string {
@@ -175,6 +176,9 @@ func newEvalSession(cfg evalCfg) *ugo.Eval {
 		opts.SymbolTable = st
 	}
 	args := append([]ugo.Object{}, cfg.args...)
+	if cfg.nilGlob {
+		return ugo.NewEval(opts, nil, args...)
+	}
 	return ugo.NewEval(opts, ugo.Map{}, args...)
 }
 
@@ -669,6 +673,30 @@ func init() {
 				for m := uint64(0); m < 1<<uint(len(w.stmts)-1); m++ {
 					checkCut(c, evalCfg{noOpt: true, args: w.args}, es, m, batch)
 					checkCut(c, evalCfg{args: w.args}, es, m, batch)
+				}
+			}
+			// the sign of a float zero constant left by an earlier fragment (the constant cache is rebuilt from
+			// the session's constants for every fragment), and globals of a session created without a map
+			for _, w := range []struct {
+				stmts  []string
+				probes []string
+				cfg    evalCfg
+			}{
+				{[]string{"a := -0.0", "b := 0.0", "string(b)"}, []string{"string(a)", "string(b)", "string(0.0)", "string(-0.0)"}, evalCfg{}},
+				{[]string{"a := 0.0", "b := -0.0", "string(b)", "c := 0.0 * -1", "d := 0.0"}, []string{"string(a)", "string(b)", "string(c)", "string(d)"}, evalCfg{}},
+				{[]string{"x := 1 - 1.0", "y := -x", "z := -0.0", "w := 0.0", "string(w)"}, []string{"string(y)", "string(z)", "string(w)"}, evalCfg{}},
+				{[]string{"global counter", "counter = 41", "counter + 1", "counter += 1", "counter"}, []string{"counter"}, evalCfg{nilGlob: true}},
+				{[]string{"global (g1, g2)", "g1 = [1]", "g2 = g1", "g1[0] = 7", "g2"}, []string{"g1", "g2"}, evalCfg{nilGlob: true}},
+			} {
+				es := &gen.EvalScript{Stmts: w.stmts, FailAt: -1, Probes: make([][]string, len(w.stmts))}
+				es.Probes[len(w.stmts)-1] = w.probes
+				for _, noOpt := range []bool{true, false} {
+					batch := map[int]*batchRes{}
+					cfg := w.cfg
+					cfg.noOpt = noOpt
+					for m := uint64(0); m < 1<<uint(len(w.stmts)-1); m++ {
+						checkCut(c, cfg, es, m, batch)
+					}
 				}
 			}
 			// disabled builtins keep their meaning (unresolved) in every later fragment, also after a fragment
